@@ -42,7 +42,23 @@ func init() {
 		ID:    "C10",
 		Props: []string{"C10"},
 		Obligs: func(tier string) []Oblig {
-			return escapeObligs(tier, true)
+			obs := escapeObligs(tier, true)
+			maxK := 4
+			if tier == "thorough" {
+				maxK = 5
+			}
+			var rec func(cur []int, n int)
+			rec = func(cur []int, n int) {
+				obs = append(obs, Oblig{Harness: "H_c07", Args: append([]int{}, cur...)})
+				if n == 0 {
+					return
+				}
+				for k := 0; k < 5; k++ {
+					rec(append(cur, k), n-1)
+				}
+			}
+			rec(nil, maxK)
+			return obs
 		},
 		Bounds: func(tier string) map[string]interface{} {
 			n := 4
@@ -124,6 +140,9 @@ func histObligs(tier string, panicViol bool) []Oblig {
 				}
 			}
 		}
+		add(1, 4, 4, 4)
+		add(1, 4, 4, 4, 1)
+		add(1, 5, 5, 5)
 	}
 	return obs
 }
@@ -155,7 +174,19 @@ func init() {
 		Obligs: func(tier string) []Oblig {
 			var obs []Oblig
 			for _, o := range histObligs(tier, true) {
-				if len(o.Args) <= 3 || tier == "thorough" {
+				if len(o.Args) <= 2 || tier == "thorough" || (len(o.Args) == 3 && o.Args[0] == 1 && lightOp(o.Args[1]) && lightOp(o.Args[2])) {
+					obs = append(obs, o)
+				}
+			}
+			obs = append(obs, joinObligs(true)...)
+			obs = append(obs, c11pObligs(tier)...)
+			for _, o := range fmtbytesObligs(tier) {
+				o.PanicViol = true
+				obs = append(obs, o)
+			}
+			for _, o := range valsObligs(tier) {
+				o.PanicViol = true
+				if tier == "thorough" || o.Args[2] == 1 {
 					obs = append(obs, o)
 				}
 			}
@@ -377,6 +408,11 @@ func wfObligs(tier string, panicViol bool) []Oblig {
 		}
 	}
 	obs = append(obs, valsObligs(tier)...)
+	for _, pr := range [][]int{{1, 1}, {1, 15}, {15, 1}, {8, 1}, {1, 0}, {0, 1}} {
+		obs = append(obs, Oblig{Harness: "H_hist", Args: []int{2, pr[0], pr[1]}, PanicViol: panicViol})
+	}
+	obs = append(obs, Oblig{Harness: "H_hist", Args: []int{1, 4, 4, 4}, PanicViol: panicViol}, Oblig{Harness: "H_hist", Args: []int{1, 4, 4, 4, 1}, PanicViol: panicViol})
+	obs = append(obs, joinObligs(panicViol)...)
 	return obs
 }
 
@@ -529,4 +565,300 @@ func init() {
 		Stubs:   []string{"regexp: modelled (see assumptions)"},
 		Outside: []string{"the regexp engine's own implementation", "longer strings"},
 	})
+}
+
+// ---- C08, C11 (join, user panics), C14, C15, C16, C17, C06, C05, C12 ----
+
+var c08Dirs = []int{0, 1, 2, 3, 4, 5, 6, 7, 8, 9, 10, 11, 12, 14, 15, 16, 17, 18, 19, 20, 21, 22, 24, 25, 26, 27, 28, 29, 30, 31, 34, 35, 36, 38, 39, 40, 41, 48}
+
+func c08Obligs(tier string) []Oblig {
+	var obs []Oblig
+	shapes := []int{2, 3, 8}
+	if tier == "thorough" {
+		shapes = []int{0, 1, 2, 3, 4, 5, 6, 7, 8}
+	}
+	for _, sh := range shapes {
+		for _, d := range c08Dirs {
+			for ck := 0; ck < 12; ck++ {
+				if tier != "thorough" && sh != 3 && ck > 1 && d > 8 {
+					continue
+				}
+				obs = append(obs, Oblig{Harness: "H_c08", Args: []int{sh, d, ck}})
+			}
+		}
+	}
+	for v := 0; v < 8; v++ {
+		for _, s1 := range []int{2, 3, 4, 5, 8} {
+			for _, s2 := range []int{1, 2, 6} {
+				obs = append(obs, Oblig{Harness: "H_c08j", Args: []int{s1, s2, v}})
+			}
+		}
+	}
+	return obs
+}
+
+func joinObligs(panicViol bool) []Oblig {
+	var obs []Oblig
+	for k := 0; k < 12; k++ {
+		obs = append(obs, Oblig{Harness: "H_join", Args: []int{k, 2}, PanicViol: panicViol})
+	}
+	return obs
+}
+
+func c11pObligs(tier string) []Oblig {
+	var obs []Oblig
+	n := 1
+	if tier == "thorough" {
+		n = 2
+	}
+	for k := 0; k < 9; k++ {
+		for d := 0; d < 9; d++ {
+			obs = append(obs, Oblig{Harness: "H_c11p", Args: []int{k, d, n}, PanicViol: true})
+		}
+	}
+	return obs
+}
+
+func c14Obligs(tier string) []Oblig {
+	var obs []Oblig
+	for w := 0; w < 6; w++ {
+		for p := 0; p < 4; p++ {
+			for vm := 0; vm < 4; vm++ {
+				if vm > 0 && (w > 2 || p > 1) && tier != "thorough" {
+					continue
+				}
+				obs = append(obs, Oblig{Harness: "H_c14", Args: []int{w, p, vm}})
+			}
+		}
+	}
+	ops := []int{0, 1, 2, 3, 4, 5, 6, 7}
+	for _, k := range ops {
+		for _, w := range []int{0, 3} {
+			for _, p := range []int{0, 2} {
+				n := 1
+				if k != 0 && k != 4 && k != 5 && k != 9 {
+					n = 0
+				}
+				obs = append(obs, Oblig{Harness: "H_c14w", Args: []int{w, p, k, n}})
+			}
+		}
+	}
+	if tier == "thorough" {
+		for k := 0; k < 11; k++ {
+			for w := 0; w < 6; w++ {
+				for p := 0; p < 4; p++ {
+					obs = append(obs, Oblig{Harness: "H_c14w", Args: []int{w, p, k, 1}})
+				}
+			}
+		}
+	}
+	return obs
+}
+
+func c15Obligs(tier string) []Oblig {
+	var obs []Oblig
+	add := func(toks []int, ops []int) {
+		args := append([]int{1, len(toks)}, toks...)
+		args = append(args, ops...)
+		obs = append(obs, Oblig{Harness: "H_c15", Args: args})
+	}
+	opKinds := []int{0, 1, 2, 3, 4, 5, 6, 7, 8, 9}
+	wTok := []int{0, 6, 7, 8, 10}
+	// one token
+	for _, t := range []int{0, 1, 6, 7, 8, 9, 10} {
+		add([]int{t}, nil)
+		for _, k := range opKinds {
+			add([]int{t}, []int{k})
+			add([]int{t}, []int{3, k})
+		}
+	}
+	// two tokens
+	for _, t1 := range []int{0, 1, 2, 4, 5, 8, 9} {
+		for _, t2 := range []int{0, 1, 6, 8, 9} {
+			for _, k1 := range []int{0, 2, 3, 5, 8} {
+				for _, k2 := range []int{0, 2, 3, 6, 7} {
+					isW := func(t int) bool { return t == 0 || t >= 6 && t <= 11 }
+					if !isW(t1) && !isW(t2) {
+						continue
+					}
+					add([]int{t1, t2}, []int{k1, k2})
+				}
+			}
+			add([]int{t1, t2}, []int{0})
+		}
+	}
+	if tier == "thorough" {
+		for _, t1 := range wTok {
+			for _, t2 := range []int{0, 1, 3, 4} {
+				for _, t3 := range []int{0, 9, 11} {
+					for _, k1 := range []int{0, 3} {
+						for _, k2 := range []int{0, 2, 4} {
+							for _, k3 := range []int{0, 5, 8} {
+								add([]int{t1, t2, t3}, []int{k1, k2, k3})
+							}
+						}
+					}
+				}
+			}
+		}
+	}
+	return obs
+}
+
+func c16Obligs(tier string) []Oblig {
+	var obs []Oblig
+	kinds := []int{0, 3, 10, 14, 19, 27, 31, 36, 102, 103, 104, 106}
+	if tier == "thorough" {
+		kinds = append(kinds, 1, 18, 21, 25, 37, 100, 105, 107, 110, 111)
+	}
+	for _, k1 := range kinds {
+		for _, k2 := range []int{0, 3, 102} {
+			for pf := 0; pf < 2; pf++ {
+				obs = append(obs, Oblig{Harness: "H_c16", Args: []int{k1, k2, 1, pf, 0}})
+			}
+		}
+		obs = append(obs, Oblig{Harness: "H_c16", Args: []int{k1, 0, 1, 0, 1}}, Oblig{Harness: "H_c16", Args: []int{k1, 0, 1, 1, 2}})
+		for d := 0; d < 10; d++ {
+			obs = append(obs, Oblig{Harness: "H_c16d", Args: []int{k1, d, 1}})
+		}
+	}
+	for v := 0; v < 5; v++ {
+		obs = append(obs, Oblig{Harness: "H_c16e", Args: []int{v}})
+	}
+	return obs
+}
+
+func c17Obligs(tier string) []Oblig {
+	var obs []Oblig
+	for ek := 0; ek < 7; ek++ {
+		for pos := 0; pos < 9; pos++ {
+			for hook := 0; hook < 2; hook++ {
+				dirs := []int{0, 2}
+				if pos == 0 || tier == "thorough" {
+					dirs = []int{0, 1, 2, 3, 4, 5, 6, 7, 8}
+				}
+				for _, d := range dirs {
+					obs = append(obs, Oblig{Harness: "H_c17", Args: []int{ek, pos, d, 1, hook, 0}})
+				}
+			}
+			obs = append(obs, Oblig{Harness: "H_c17", Args: []int{ek, pos, 0, 1, 1, 1}})
+		}
+	}
+	return obs
+}
+
+var nestCodes = []int{1, 2, 12, 21, 11, 22, 121, 212, 112, 221, 122, 211}
+
+func c06Obligs(tier string) []Oblig {
+	var obs []Oblig
+	kinds := []int{0, 3, 10, 14, 19, 21, 27, 31, 35, 36, 100, 101, 102, 103, 104, 105, 106, 107, 108, 110, 111}
+	dirs := []int{0, 1, 2, 3, 4, 5, 16, 19}
+	for _, code := range nestCodes {
+		for _, k := range kinds {
+			for _, d := range dirs {
+				if tier != "thorough" && code > 22 && d > 2 {
+					continue
+				}
+				obs = append(obs, Oblig{Harness: "H_c06", Args: []int{code, k, d, 1}})
+			}
+		}
+	}
+	// scripts
+	for _, code := range []int{2, 1, 21, 12} {
+		for fl := 0; fl < 2; fl++ {
+			for a := 0; a < 9; a++ {
+				obs = append(obs, Oblig{Harness: "H_c06s", Args: []int{code, fl, 1, a}})
+				for b := 0; b < 9; b++ {
+					if tier == "thorough" || (a <= 6 && b <= 6 && code <= 2) {
+						obs = append(obs, Oblig{Harness: "H_c06s", Args: []int{code, fl, 1, a, b}})
+					}
+				}
+			}
+		}
+	}
+	return obs
+}
+
+func c05Obligs(tier string) []Oblig {
+	var obs []Oblig
+	for l1 := 0; l1 < 9; l1++ {
+		for _, l2 := range []int{0, 2, 3, 5, 6} {
+			for _, l3 := range []int{0, 1, 4} {
+				for shape := 0; shape < 5; shape++ {
+					fis := []int{0}
+					if shape == 0 {
+						fis = []int{0, 1, 2, 3, 4}
+					}
+					for _, fi := range fis {
+						reg := 0
+						if l1 == 5 || l2 == 5 {
+							obs = append(obs, Oblig{Harness: "H_c05", Args: []int{l1, l2, l3, shape, fi, 1, 1}})
+						}
+						if tier != "thorough" && shape > 0 && l3 != 0 {
+							continue
+						}
+						obs = append(obs, Oblig{Harness: "H_c05", Args: []int{l1, l2, l3, shape, fi, 1, reg}})
+					}
+				}
+			}
+		}
+	}
+	return obs
+}
+
+func c12Obligs(tier string) []Oblig {
+	var obs []Oblig
+	for probe := 0; probe < 8; probe++ {
+		for h := 0; h < 16; h++ {
+			if h == 14 && tier != "thorough" {
+				continue
+			}
+			obs = append(obs, Oblig{Harness: "H_c12", Args: []int{probe, 1, h}, PoolMode: 1})
+		}
+		if tier == "thorough" {
+			for h1 := 0; h1 < 14; h1++ {
+				for _, h2 := range []int{0, 4, 5, 7, 9, 12} {
+					obs = append(obs, Oblig{Harness: "H_c12", Args: []int{probe, 1, h1, h2}, PoolMode: 1})
+				}
+			}
+		}
+	}
+	return obs
+}
+
+func simpleSpec(id string, obligs func(string) []Oblig, goals []string, bounds map[string]interface{}, assume, stubs, outside []string) {
+	register(&CheckSpec{ID: id, Props: []string{id}, Obligs: obligs, Goals: goals,
+		Bounds: func(string) map[string]interface{} { return bounds }, Assume: assume, Stubs: stubs, Outside: outside})
+}
+
+func init() {
+	stubs := []string{"reflect emulated over go/types", "sync.Pool LIFO model", "stdlib fmt/strconv interpreted from source"}
+	simpleSpec("C08", c08Obligs, []string{"nonempty-redactable"},
+		map[string]interface{}{"redactables": "symbolic well-formed line-safe fragments: <=1 envelope and <=2 safe runs of ASCII bytes (9 shapes)", "directives": len(c08Dirs), "containers": 12, "compositions": "8 Sprint/Sprintf/Join/JoinTo variants x 15 shape pairs"},
+		[]string{"redactables are in the class C01/C03/C10 show the library produces: well-formed, line-safe, no truncated tail; content bytes ASCII"}, stubs, []string{"%T and %p (excluded by the property)", "non-ASCII content bytes", "deeper nesting"})
+	simpleSpec("C14", c14Obligs, []string{"bare-v"},
+		map[string]interface{}{"flags": "five symbolic booleans (all 32 subsets)", "widths": "absent,0,1,7,12,1000", "precisions": "absent,0,1,5", "verbs": "symbolic ASCII letter (except T p w) and 3 multi-byte runes", "wrapper_operands": "8 (11 thorough) basic kinds"},
+		[]string{"the * forms reach MakeFormat as the same fmt.State as a literal width/precision"}, stubs, []string{"widths above 1000"})
+	simpleSpec("C15", c15Obligs, []string{"valid-wrap", "multiple-w"},
+		map[string]interface{}{"format_tokens": "1-2 (3 thorough) tokens from 13 (incl. %w with flags, widths, indexes)", "operand_kinds": 10, "error_text": "1 symbolic valid-UTF-8 byte"},
+		nil, stubs, []string{"longer formats"})
+	simpleSpec("C16", c16Obligs, []string{"symbolic-leaf"},
+		map[string]interface{}{"operand_kinds": "12 (22 thorough) x 3", "routes": "Sprint/Fprint/StringBuilder/Sprintfn/SafeFormat and the printf twins, empty and non-empty outer buffers", "writers": "succeeding, failing, short", "leaf": "1 arbitrary symbolic byte"},
+		nil, stubs, []string{"longer leaves", "Print*-to-stdout variants"})
+	simpleSpec("C17", c17Obligs, []string{"hook-dispatched"},
+		map[string]interface{}{"error_kinds": 7, "positions": 9, "verbs": 9, "configurations": "no hook / hook / panicking hook", "error_text": "1 symbolic byte"},
+		nil, stubs, []string{"deeper nesting than 2"})
+	simpleSpec("C06", c06Obligs, []string{"symbolic-under-unsafe", "script-under-unsafe"},
+		map[string]interface{}{"wrapper_nestings": "all 12 up to depth 3", "value_kinds": 21, "directives": 8, "scripts": "1-2 calls from 9 (formatter discovering the SafePrinter, and SafeFormatter)", "leaf": "1 symbolic valid-UTF-8 non-LF byte"},
+		[]string{"unsafe renderings are LF-free (LF handling is C03/C09)"}, stubs, []string{"longer scripts"})
+	simpleSpec("C05", c05Obligs, []string{"symbolic-leaves"},
+		map[string]interface{}{"leaves": "3 per call from 9 kinds (unsafe string/int, SafeString, Safe(), SafeInt, registered type, safe-emitting SafeFormatter, SafeValue type)", "shapes": "top level, []interface{}, struct with interface fields, map, Sprint", "formats": 5, "registry": "empty / one registered type", "leaf_bytes": "1 symbolic byte each for the unsafe and the safe payload"},
+		[]string{"unsafe payloads are LF-free and valid UTF-8", "the blanked operand is rendered as one leaf"}, stubs, []string{"bad verbs (C04)", "longer payloads"})
+	register(&CheckSpec{ID: "C12", Props: []string{"C12"}, Obligs: c12Obligs, Goals: []string{"ran"},
+		Bounds: func(tier string) map[string]interface{} {
+			return map[string]interface{}{"histories": "1 (2 thorough) prior calls from 16 dirtying kinds", "probes": 8, "pool": "adversarial sync.Pool model: Get returns any freed printer or a new one (all choices explored)", "payload": "1 symbolic byte in probe and history"}
+		},
+		Assume:  []string{"SCHEDULES AND DATA RACES ARE NOT DECIDED: the executor is sequential; only the history half of the property is checked"},
+		Stubs:   []string{"sync.Pool: adversarial model", "reflect emulated"},
+		Outside: []string{"goroutine interleavings, data-race freedom", "histories longer than 2"}})
 }
